@@ -194,6 +194,8 @@ pub fn run(run: &mut Run) {
     run.rule = "cases: a well-formed base sprite (proptest tape) that loads, and every way of switching on one unsupported feature at every position where it can occur: pixel ratio a:b (a,b>=1, not 1:1), colour depth outside {8,16,32}, each layer's type >= 3, each layer's blend mode >= 19, each cel's type >= 4, each tag's direction >= 3, bits-per-tile != 32 in each tilemap cel, each tileset with the embedded-pixels flag cleared (with/without external link), an ICC colour-profile chunk or any colour-profile chunk with the fixed-gamma flag inserted at every chunk position of every frame. Oracle: base loads, every variant returns Err. A case is one base with all its variants; non-trivial: every case (base loads and each variant differs in exactly that feature); a feature class with zero variants over the whole run is a harness fault".into();
     let (lanes, cases) = if run.thorough() { (16, 8000) } else { (16, 400) };
     run_tapes(run, lanes, cases, 1200, &check);
+    // thorough only: coverage-guided search over generator tapes with the same oracle
+    crate::fuzzstage::fuzz_tapes(run, 1200, 120);
     let need = ["variants_pixel_ratio", "variants_colour_depth", "variants_layer_type", "variants_blend_mode", "variants_cel_type", "variants_animation_direction", "variants_bits_per_tile", "variants_tileset_not_embedded", "variants_icc_profile", "variants_fixed_gamma"];
     if run.violations.is_empty() {
         for k in need {
